@@ -392,6 +392,7 @@ func verify(c *common.Ctx, cp crashPoint, dbName string, allowed []posImg, key s
 	// the restarted node can commit again, in the journal mode the recovered header names, and what it commits replicates
 	if followUp && primary && db != nil && len(im.Pages) > 0 {
 		walMode := len(im.Pages[0]) > 19 && im.Pages[0][18] == 2 && im.Pages[0][19] == 2
+		c.Count(fmt.Sprintf("recovered_tracked_mode=%v_header_wal=%v", db.Mode(), walMode), 1)
 		if !walMode {
 			// the recovered header names rollback-journal mode: a connection that reads (SHARED held shared) keeps
 			// LiteFS's own writers (apply, import, checkpoint, halt) out, as it does on a node that never crashed
@@ -472,6 +473,15 @@ var script3 = []hist.Step{
 	{Op: "wtx", Frames: [][2]uint64{{1, 51}}, NewSize: 2},
 }
 
+// script4: the switch to WAL interrupted when the newest transaction file does not hold page 1 (re-applying it at the
+// restart cannot correct what was read from the header before the hot journal was rolled back)
+var script4 = []hist.Step{
+	{Op: "rtx", Writes: map[uint32]uint64{1: 1, 2: 2, 3: 3, 4: 4, 5: 5, 6: 6, 7: 7, 8: 8, 9: 9, 10: 10}, NewSize: 10, JMode: 2, Sector: 4096},
+	{Op: "rtx", Writes: map[uint32]uint64{4: 14, 5: 15}, NewSize: 5, JMode: 2, Outcome: int(lfs.RollbackAfterWrite), Sector: 512, ToWAL: true}, // a switch to WAL that is rolled back
+	{Op: "rtx", Writes: map[uint32]uint64{2: 22, 4: 24, 10: 30, 11: 31}, NewSize: 11, Sector: 4096, ToWAL: true},                               // ... and tried again
+	{Op: "rtx", Writes: map[uint32]uint64{2: 42}, NewSize: 11},
+}
+
 func script2() []hist.Step {
 	all := map[uint32]uint64{}
 	for pg := uint32(1); pg <= 70; pg++ {
@@ -496,6 +506,8 @@ func localHistories(c *common.Ctx, r *common.Rand, idx int, wal bool) error {
 		script = script2()
 	} else if idx == -3 {
 		script = script3
+	} else if idx <= -4 {
+		script = script4
 	}
 	dir, err := os.MkdirTemp(c.OutDir, "c05-")
 	if err != nil {
@@ -506,6 +518,9 @@ func localHistories(c *common.Ctx, r *common.Rand, idx int, wal bool) error {
 	cfg := hist.Config{PageSize: []int{512, 1024, 4096}[r.Intn(3)], AllowWAL: wal, ForceWAL: wal, AllowDrop: true, BackToRollback: wal && r.Bool(), Clients: true}
 	if idx == -2 || idx == -3 {
 		cfg.PageSize = 512
+	}
+	if idx <= -4 {
+		cfg.PageSize = []int{512, 1024, 4096}[(-idx-4)%3]
 	}
 	if idx == -3 {
 		cfg.BackToRollback = true
@@ -579,7 +594,7 @@ func localHistories(c *common.Ctx, r *common.Rand, idx int, wal bool) error {
 			if k == len(points)-1 {
 				allowed = []posImg{after} // the operation returned: its result must not be lost
 			}
-			verify(c, cp, "db", allowed, key, rep, true, k%5 == 0 || idx == -3)
+			verify(c, cp, "db", allowed, key, rep, true, k%5 == 0 || idx <= -3)
 		}
 		os.RemoveAll(snapDir)
 	}
@@ -771,6 +786,11 @@ func Run(c *common.Ctx) error {
 	}
 	if err := localHistories(c, c.Rng.Fork(), -3, true); err != nil {
 		return err
+	}
+	for idx := -4; idx >= -6; idx-- {
+		if err := localHistories(c, c.Rng.Fork(), idx, true); err != nil {
+			return err
+		}
 	}
 	if err := localHistories(c, c.Rng.Fork(), -2, false); err != nil {
 		return err
